@@ -275,6 +275,7 @@ type arshalCase struct {
 	Omit  bool       `json:"omit"`
 	Note  string     `json:"note"` // first error text, for the reader only
 	Swap  bool       `json:"swap"` // the value holds user code that swaps its caller's container (known finding K7)
+	ZoneS bool       `json:"zonesec"` // the value holds a time whose zone offset is not a whole number of minutes (K8)
 }
 
 func (c *arshalCase) norm() {
@@ -603,6 +604,7 @@ func c04Exec(c *arshalCase) {
 			v.Field(i).Set(reflect.ValueOf(tm))
 		}
 	}
+	c.ZoneS = holdsZoneSeconds(v, 0)
 	opts := append(c.Opts.options(r), jsonv2.ExperimentalSupportFormatTag(true))
 	c.Omit = omit || c.Opts.Name == "omitzero" || c.Opts.Name == "legacy-omitempty" || c.Opts.Name == "v1"
 	out1, err1 := jsonv2.Marshal(v.Interface(), opts...)
@@ -1527,6 +1529,41 @@ func holdsSwapper(v reflect.Value, depth int) bool {
 	case reflect.Map:
 		for it := v.MapRange(); it.Next(); {
 			if holdsSwapper(it.Key(), depth+1) || holdsSwapper(it.Value(), depth+1) {
+				return true
+			}
+		}
+	}
+	return false
+}
+
+func holdsZoneSeconds(v reflect.Value, depth int) bool {
+	if depth > 14 || !v.IsValid() {
+		return false
+	}
+	if v.Type() == timeType {
+		_, off := v.Interface().(time.Time).Zone()
+		return off%60 != 0
+	}
+	switch v.Kind() {
+	case reflect.Struct:
+		for i := 0; i < v.NumField(); i++ {
+			if holdsZoneSeconds(v.Field(i), depth+1) {
+				return true
+			}
+		}
+	case reflect.Slice, reflect.Array:
+		for i := 0; i < v.Len(); i++ {
+			if holdsZoneSeconds(v.Index(i), depth+1) {
+				return true
+			}
+		}
+	case reflect.Pointer, reflect.Interface:
+		if !v.IsNil() {
+			return holdsZoneSeconds(v.Elem(), depth+1)
+		}
+	case reflect.Map:
+		for it := v.MapRange(); it.Next(); {
+			if holdsZoneSeconds(it.Value(), depth+1) {
 				return true
 			}
 		}
